@@ -33,9 +33,24 @@ func (countingHandler) Enabled(context.Context, slog.Level) bool {
 		h("slog")
 		return false
 	}
-	SlogSteps.Add(1)
+	if n := SlogSteps.Add(1); StepDeadline > 0 && n > StepDeadline {
+		// deterministic step bound: a library call that keeps logging without ever returning is cut here
+		// (the panic is recovered by whoever armed the deadline and reported as non-termination)
+		StepDeadline = 0
+		panic(StepBoundExceeded)
+	}
 	return false
 }
+
+// StepDeadline, when > 0, is the absolute value of SlogSteps beyond which the logging seam aborts the call.
+var StepDeadline int64
+
+// StepBoundExceeded is the panic value used for that.
+const StepBoundExceeded = "verif: logging-step bound exceeded (the call does not terminate within the step budget)"
+
+// ArmStepBound sets the deadline n steps from now; DisarmStepBound clears it.
+func ArmStepBound(n int64) { StepDeadline = SlogSteps.Load() + n }
+func DisarmStepBound()     { StepDeadline = 0 }
 func (countingHandler) Handle(context.Context, slog.Record) error { return nil }
 func (h countingHandler) WithAttrs([]slog.Attr) slog.Handler      { return h }
 func (h countingHandler) WithGroup(string) slog.Handler           { return h }
